@@ -161,6 +161,46 @@ RAGGED_TOTAL_CLAUSE = "Import_Table accepts a ragged file (rows of unequal lengt
 RAGGED_FILL_CLAUSE = "Import_Table accepts a file whose entries do not fill its rows (ragged rows, a blank line between rows) instead of terminating with a diagnostic"
 
 
+LOCALE_CLAUSE = "round trip under a caller-installed global locale (decimal point ','): the table/list read back differs in shape or in the first six significant digits"
+
+
+def compare_locale(op, a, rq, impl, model, ctx):
+    out = []
+    if tag(model) == "undef":
+        return out
+    h = unhex(a[0])
+    if op == "c20.rtlocL":
+        u = fl(a[1])
+        xs, _ = read_list(a[2:], fl)
+        t, us = [[x] for x in xs], [u]
+    else:
+        us, rest = read_list(a[1:], fl)
+        t, _ = read_table(rest, fl)
+    what = "%s of %d x %d values, %d header line(s), units %s" % ("Export_List/Import_List" if op == "c20.rtlocL" else "Export_Table/Import_Table",
+                                                                   len(t), len(t[0]) if t else 0, h.count("\n") + 1 if h else 0, "given" if us else "none")
+    if tag(impl) != "ok":
+        return [fail("prop", LOCALE_CLAUSE, "%s: %s" % (what, impl[:100]))]
+    ti = toks(impl)
+    if op == "c20.rtlocL":
+        li, _ = read_list(ti, fl)
+        ri = [[v] for v in li]
+    else:
+        ri, _ = read_table(ti, fl)
+    if [len(r) for r in ri] != [len(r) for r in t]:
+        return [fail("prop", LOCALE_CLAUSE, "%s: read back %s" % (what, [len(r) for r in ri][:8]))]
+    for i, (rr, tr) in enumerate(zip(ri, t)):
+        for j, (v, x) in enumerate(zip(rr, tr)):
+            if not six_digit_ok(v, x, us[j] if us else 1.0):
+                return [fail("prop", LOCALE_CLAUSE, "%s: [%d][%d] %r -> %r" % (what, i, j, x, v))]
+    # values as in the classic locale (model of the classic round trip)
+    if tag(model) == "ok":
+        tm = toks(model)
+        rm = [[v] for v in read_list(tm, fr)[0]] if op == "c20.rtlocL" else read_table(tm, fr)[0]
+        cmp_values(ri, rm, "round trip under a comma locale: values", out)
+    ctx["nontrivial"].add((op, min(len(t), 3), bool(us), bool(h)))
+    return out
+
+
 def lines_oracle(text, got, out):
     """Count_Lines is the number of lines of the file: the pieces ended by a line feed, plus a last piece that is not empty
     (since c62bfe8 Import_Table counts its rows itself, so this helper is judged on its own definition)"""
@@ -471,6 +511,18 @@ def generate(tier, seed, ctx):
             t = gen_table_rt(rng, r, c, us)
             t[rng.randrange(r)][jc] = x
             R.append("c20.rttable %s %s %s" % (enhex(rng.choice(HEADERS)), lst(us), tbl(t)))
+    # round trip in a program whose global C++ locale writes the decimal point as ',' (facet installed by the caller): the property does
+    # not mention locales, the unchanged library writes and reads with the same (global) locale, so the VALUES come back as in the classic
+    # locale; judged by shape and six digits only, never by the bytes
+    for k in range(40 if thorough else 14):
+        r, c = rng.randint(1, 12), rng.randint(1, 6)
+        us = [] if k % 3 == 0 else [gen_unit(rng) for _ in range(c)]
+        h = rng.choice(HEADERS)
+        if k % 4 == 3:
+            u = gen_unit(rng)
+            R.append("c20.rtlocL %s %s %s" % (enhex(h), hx(u), lst([gen_safe(rng, u) for _ in range(rng.randint(1, 20))])))
+        else:
+            R.append("c20.rtloc %s %s %s" % (enhex(h), lst(us), tbl(gen_table(rng, r, c, us))))
     R += size_targeted(rng, thorough)
     # a table without rows: the file is the header alone (or empty); read with the number of header lines written it is
     # the empty table (5eb5000: it was a division by zero)
@@ -1028,6 +1080,8 @@ def compare(rq, impl, model, ctx):
         if tag(impl) != "err":
             return [fail("prop", "In_Units with rounding to zero significant digits does not stop with a diagnostic", impl[:100])]
         return []
+    if op in ("c20.rtloc", "c20.rtlocL"):
+        return compare_locale(op, a, rq, impl, model, ctx)
     if op in ("c20.imptable", "c20.imptable2"):
         pre = import_shape_oracle(op, a, impl, ctx)
         if pre:
